@@ -135,11 +135,11 @@ class StartWaitingWorkflowsHandler(StabilizeHandler[StartWaitingWorkflows]):
                         )
                     )
 
-                if self.event_recorder:
-                    self.set_event_context(execution.id)
-                    self.event_recorder.record_workflow_started(
-                        execution, source_handler="StartWaitingWorkflowsHandler"
-                    )
+                    if self.event_recorder:
+                        self.set_event_context(execution.id)
+                        self.event_recorder.record_workflow_started(
+                            execution, source_handler="StartWaitingWorkflowsHandler"
+                        )
             elif message.purge_queue:
                 # Cancel remaining
                 logger.info("Purging waiting execution %s", execution.id)
